@@ -741,4 +741,478 @@ theorem Reachable.next {disk : Bool} {t : Table} (h : Reachable disk t) (op : Op
     | cons a rest ih => intro t; simp only [List.cons_append, run]; exact ih _
   exact (key ops _).symm
 
+/-! ## reference-level facts used by the property theorems -/
+
+/-- what `get_all()` shows -/
+def view (t : Table) : List Rec := t.rows.map (res t.strings)
+
+/-- what `get_one(u)` shows -/
+def lookup (recs : List Rec) (u : Str) : Option Rec := recs.find? (fun r => r.url == u)
+
+theorem view_step (disk : Bool) {t : Table} (h : Inv t) (op : Op) :
+    view (step disk t op).1 = (sstep disk (abs t) op).1.rows := by
+  have := (step_refines disk h op).1
+  rw [← this]; rfl
+
+theorem lookup_url {recs : List Rec} {u : Str} {r : Rec} (h : lookup recs u = some r) :
+    r.url = u := by
+  have := List.find?_some h
+  simpa using this
+
+theorem lookup_mem {recs : List Rec} {u : Str} {r : Rec} (h : lookup recs u = some r) :
+    r ∈ recs := List.mem_of_find?_eq_some h
+
+theorem lookup_map {recs : List Rec} (g : Rec → Rec) (hg : ∀ r, (g r).url = r.url) (u : Str) :
+    lookup (recs.map g) u = (lookup recs u).map g := by
+  unfold lookup
+  rw [List.find?_map]
+  congr 1
+  apply find?_congr'
+  intro r _
+  simp [Function.comp, hg]
+
+theorem lookup_of_mem {recs : List Rec} (hd : recs.Pairwise (fun a b => a.url ≠ b.url))
+    {r : Rec} (hr : r ∈ recs) : lookup recs r.url = some r := by
+  induction recs with
+  | nil => cases hr
+  | cons a t ih =>
+    rw [List.pairwise_cons] at hd
+    unfold lookup
+    rw [List.find?_cons]
+    rcases List.mem_cons.mp hr with e | e
+    · subst e; simp
+    · have : (a.url == r.url) = false := by
+        rw [beq_eq_false_iff_ne]; exact hd.1 r e
+      rw [this]
+      exact ih hd.2 e
+
+theorem map_url_map {recs : List Rec} (g : Rec → Rec) (hg : ∀ r, (g r).url = r.url) :
+    (recs.map g).map (·.url) = recs.map (·.url) := by
+  rw [List.map_map]
+  exact List.map_congr_left (fun r _ => hg r)
+
+theorem sInsert_cases (ek : Bool) (recs : List Rec) (e : Entry) :
+    sInsert ek recs e = recs
+      ∨ ∃ x, sInsert ek recs e = recs ++ [x] ∧ ∀ y ∈ recs, x.url ≠ y.url := by
+  unfold sInsert
+  cases hc : recs.any (fun r => r.url == e.url) with
+  | true => exact Or.inl (by simp)
+  | false =>
+    refine Or.inr ⟨{ url := e.url, parent := e.parentParam.bind (known ek)
+                     root := e.rootParam.bind (known ek), cols := e.cols },
+      by simp only [Bool.false_eq_true, if_false], ?_⟩
+    intro y hy e2
+    have : recs.any (fun r => r.url == e.url) = true :=
+      List.any_eq_true.mpr ⟨y, hy, by simp only at e2; simp [e2]⟩
+    rw [hc] at this; cases this
+
+theorem sInsertAll_append (ek : Bool) (batch : List Entry) : ∀ recs : List Rec,
+    ∃ new, batch.foldl (sInsert ek) recs = recs ++ new
+      ∧ ∀ x ∈ new, ∀ y ∈ recs, x.url ≠ y.url := by
+  induction batch with
+  | nil => intro recs; exact ⟨[], by simp, by simp⟩
+  | cons e t ih =>
+    intro recs
+    simp only [List.foldl_cons]
+    rcases sInsert_cases ek recs e with h | ⟨x, h, hx⟩
+    · rw [h]; exact ih recs
+    · rw [h]
+      obtain ⟨new, e1, d1⟩ := ih (recs ++ [x])
+      refine ⟨x :: new, by rw [e1]; simp, ?_⟩
+      intro z hz y hy
+      rcases List.mem_cons.mp hz with hz | hz
+      · subst hz; exact hx y hy
+      · exact d1 z hz y (List.mem_append_left _ hy)
+
+theorem sAddMany_shape (s : Spec) (batch : List Entry) :
+    ∃ new, (sAddMany s batch).1.rows = s.rows ++ new
+      ∧ (∀ x ∈ new, ∀ y ∈ s.rows, x.url ≠ y.url)
+      ∧ ((sAddMany s batch).2 = .urls (new.map (·.url))
+          ∨ ∃ e, (sAddMany s batch).2 = .exc e ∧ new = []) := by
+  unfold sAddMany
+  by_cases h0 : batch.isEmpty = true
+  · simp only [h0, if_true]; exact ⟨[], by simp, by simp, Or.inl rfl⟩
+  by_cases h1 : missingBind batch = true
+  · simp only [h0, h1, if_true, Bool.false_eq_true, if_false]
+    exact ⟨[], by simp, by simp, Or.inr ⟨_, rfl, rfl⟩⟩
+  simp only [h0, h1, Bool.false_eq_true, if_false]
+  obtain ⟨new, e1, d1⟩ := sInsertAll_append
+    (s.emptyKnown || batch.any (fun e => e.url == [])) batch s.rows
+  rw [e1, List.drop_left]
+  cases (new.map (·.url)).mapM (parseOf batch) with
+  | none => exact ⟨[], by simp, by simp, Or.inr ⟨_, rfl, rfl⟩⟩
+  | some hs => exact ⟨new, rfl, d1, Or.inl rfl⟩
+
+theorem sRemoveAll_filter (us : List Str) : ∀ recs : List Rec,
+    us.foldl sRemoveOne recs = recs.filter (fun r => decide (r.url ∉ us)) := by
+  induction us with
+  | nil => intro recs; exact (List.filter_eq_self.mpr (by simp)).symm
+  | cons u t ih =>
+    intro recs
+    simp only [List.foldl_cons]
+    rw [ih, sRemoveOne, List.filter_filter]
+    apply List.filter_congr
+    intro r _
+    by_cases e : r.url = u <;> simp [e]
+
+/-- a refused call (any exception) leaves the table exactly as it was -/
+theorem exc_unchanged (disk : Bool) (t : Table) (op : Op) (e : Exc)
+    (h : (step disk t op).2 = .exc e) : (step disk t op).1 = t := by
+  unfold step at h ⊢
+  cases hb : bindErr op with
+  | some e' => rfl
+  | none =>
+    rw [hb] at h
+    dsimp only at h ⊢
+    cases op with
+    | addMany b =>
+      dsimp only at h ⊢
+      unfold addMany at h ⊢
+      by_cases h0 : b.isEmpty = true
+      · simp [h0]
+      by_cases h1 : missingBind b = true
+      · simp [h0, h1]
+      simp only [h0, h1, Bool.false_eq_true, if_false] at h ⊢
+      split at h
+      · rfl
+      · cases h
+    | checkOut st lv =>
+      dsimp only at h ⊢
+      unfold checkOut at h ⊢
+      cases hc : checkOutRows (wanted st lv) t.rows with
+      | none => rfl
+      | some x => rw [hc] at h; cases h
+    | getOne u =>
+      dsimp only at h ⊢
+      split <;> rfl
+    | checkIn u st inc r => cases h
+    | updateOne u kw => cases h
+    | release => cases h
+    | removeMany us => cases h
+    | addVisits vs => cases h
+    | getRevisitId u d => rfl
+    | count => rfl
+    | getAll => rfl
+    | contains u => rfl
+    | getHostnames => rfl
+    | reopen => cases h
+
+/-! ## PROPERTY THEOREMS (C14)
+
+`view t` is what `get_all()` returns, `lookup (view t) u` what `get_one(u)` returns; `Reachable`
+tables are the ones some history of calls (with reopen steps, `disk` = on-disk variant)
+produces from the empty table.  Every theorem is for all histories, all URL strings and
+property values. -/
+
+/-- REFINEMENT (all histories): the table and the keyed reference give the same outputs, call by
+call, and `get_all()` of the table is the reference's content — for the in-memory and the
+on-disk variant, reopen steps included. -/
+theorem refinement (disk : Bool) (ops : List Op) :
+    (run disk Table.empty ops).2 = (srun disk Spec.empty ops).2
+      ∧ abs (run disk Table.empty ops).1 = (srun disk Spec.empty ops).1 := by
+  obtain ⟨a, o, _⟩ := run_refines disk ops inv_empty
+  exact ⟨o, a⟩
+
+/-- "a URL is stored once": in every reachable table no two rows carry the same URL. -/
+theorem url_stored_once {disk : Bool} {t : Table} (hr : Reachable disk t) :
+    (view t).Pairwise (fun a b => a.url ≠ b.url) :=
+  KInv.urls_distinct hr.inv
+
+/-- `add_many` only appends: the old rows stay as they are and in place, the appended rows carry
+URLs that were not stored, and the returned list is exactly the appended URLs. -/
+theorem add_extends {disk : Bool} {t : Table} (hr : Reachable disk t) (batch : List Entry) :
+    ∃ new, view (step disk t (.addMany batch)).1 = view t ++ new
+      ∧ (∀ x ∈ new, ∀ y ∈ view t, x.url ≠ y.url)
+      ∧ ∀ l, (step disk t (.addMany batch)).2 = .urls l → l = new.map (·.url) := by
+  have hi := hr.inv
+  rw [view_step disk hi, (step_refines disk hi _).2.1]
+  unfold sstep
+  cases hb : bindErr (.addMany batch) with
+  | some e => exact ⟨[], by simp [view, abs], by simp, by intro l h; cases h⟩
+  | none =>
+    dsimp only
+    obtain ⟨new, e1, d1, o1⟩ := sAddMany_shape (abs t) batch
+    refine ⟨new, e1, d1, ?_⟩
+    intro l hl
+    rcases o1 with o | ⟨e, o, _⟩
+    · rw [o] at hl; injection hl with hl; exact hl.symm
+    · rw [o] at hl; cases hl
+
+/-- "adding it again changes neither its status, its try count nor its depth and is not reported
+as new": the whole record of a stored URL is unchanged by any `add_many` (batches with internal
+duplicates and arbitrary properties included), and the URL is not in the returned list. -/
+theorem add_existing_noop {disk : Bool} {t : Table} (hr : Reachable disk t) (batch : List Entry)
+    (u : Str) (r : Rec) (hu : lookup (view t) u = some r) :
+    lookup (view (step disk t (.addMany batch)).1) u = some r
+      ∧ (∀ l, (step disk t (.addMany batch)).2 = .urls l → u ∉ l)
+      ∧ view t <+: view (step disk t (.addMany batch)).1 := by
+  obtain ⟨new, e1, d1, o1⟩ := add_extends hr batch
+  refine ⟨?_, ?_, ?_⟩
+  · rw [e1]; unfold lookup at hu ⊢; rw [List.find?_append, hu]; rfl
+  · intro l hl hmem
+    rw [o1 l hl] at hmem
+    obtain ⟨x, hx, ex⟩ := List.mem_map.mp hmem
+    exact d1 x hx r (lookup_mem hu) (by rw [ex, lookup_url hu])
+  · rw [e1]; exact List.prefix_append _ _
+
+theorem wanted_iff (st : Status) (lv : Option Nat) (c : Cols) :
+    wanted st lv c = true ↔ c.status = st ∧ ∀ l, lv = some l → c.level < l := by
+  unfold wanted
+  cases lv with
+  | none => simp
+  | some l => simp
+
+/-- "check-out returns a URL with the requested status (and depth bound) and marks it in
+progress": the returned record is the first stored row with that status (and level below the
+bound), returned with status in_progress; afterwards exactly that URL's row is in_progress and
+every other row is unchanged. -/
+theorem checkout_marks_in_progress {disk : Bool} {t : Table} (hr : Reachable disk t)
+    (st : Status) (lv : Option Nat) (t' : Table) (r : Rec)
+    (h : step disk t (.checkOut st lv) = (t', .record r)) :
+    ∃ r0, (view t).find? (fun x => wanted st lv x.cols) = some r0
+      ∧ r0.cols.status = st ∧ (∀ l, lv = some l → r0.cols.level < l)
+      ∧ r = { r0 with cols := r0.cols.setStatus .in_progress }
+      ∧ r.cols.status = .in_progress
+      ∧ view t' = (view t).map (fun x =>
+          if x.url = r0.url then { x with cols := x.cols.setStatus .in_progress } else x)
+      ∧ lookup (view t') r0.url = some r := by
+  have hi := hr.inv
+  have hv := view_step disk hi (.checkOut st lv)
+  have ho := (step_refines disk hi (.checkOut st lv)).2.1
+  rw [h] at hv ho
+  dsimp only at hv ho
+  unfold sstep at hv ho
+  cases hb : bindErr (.checkOut st lv) with
+  | some e => rw [hb] at ho; cases ho
+  | none =>
+    rw [hb] at hv ho
+    dsimp only at hv ho
+    unfold sCheckOut at hv ho
+    cases hf : (abs t).rows.find? (fun x => wanted st lv x.cols) with
+    | none => rw [hf] at ho; cases ho
+    | some r0 =>
+      rw [hf] at hv ho
+      dsimp only at hv ho
+      injection ho with ho
+      have hws : wanted st lv r0.cols = true :=
+        List.find?_some (p := fun x : Rec => wanted st lv x.cols) hf
+      have hw := (wanted_iff st lv r0.cols).mp hws
+      have hmem : r0 ∈ view t := List.mem_of_find?_eq_some hf
+      refine ⟨r0, hf, hw.1, hw.2, ho, by rw [ho]; rfl, hv, ?_⟩
+      have hview : (abs t).rows = view t := rfl
+      rw [hview] at hv
+      rw [hv, lookup_map _ (by intro x; split <;> rfl), lookup_of_mem (url_stored_once hr) hmem, ho]
+      simp
+
+/-- "or reports not found exactly when there is none" (and then nothing changes) -/
+theorem checkout_notfound_iff {disk : Bool} {t : Table} (hr : Reachable disk t)
+    (st : Status) (lv : Option Nat) (hlv : ∀ l, lv = some l → l < 2 ^ 63) :
+    ((step disk t (.checkOut st lv)).2 = .exc .NotFound
+        ↔ ∀ x ∈ view t, ¬ (x.cols.status = st ∧ ∀ l, lv = some l → x.cols.level < l))
+      ∧ ((step disk t (.checkOut st lv)).2 = .exc .NotFound → (step disk t (.checkOut st lv)).1 = t) := by
+  refine ⟨?_, exc_unchanged disk t _ _⟩
+  have hi := hr.inv
+  rw [(step_refines disk hi (.checkOut st lv)).2.1]
+  have hb : bindErr (.checkOut st lv) = none := by
+    unfold bindErr
+    cases lv with
+    | none => simp [Op.strs, Op.nats, optL]
+    | some l =>
+      have := hlv l rfl
+      simp [Op.strs, Op.nats, optL, tooBig]
+      omega
+  unfold sstep
+  rw [hb]
+  dsimp only
+  unfold sCheckOut
+  cases hf : (abs t).rows.find? (fun x => wanted st lv x.cols) with
+  | none =>
+    simp only [true_iff]
+    intro x hx hw
+    have := List.find?_eq_none.mp hf x hx
+    exact this ((wanted_iff st lv x.cols).mpr hw)
+  | some r0 =>
+    simp only [reduceCtorEq, false_iff]
+    intro hall
+    have hws : wanted st lv r0.cols = true :=
+        List.find?_some (p := fun x : Rec => wanted st lv x.cols) hf
+    exact hall r0 (List.mem_of_find?_eq_some hf) ((wanted_iff st lv r0.cols).mp hws)
+
+/-- "check-in sets the given status and raises the try count by exactly one when asked": for a
+stored URL the new record has the given status, try count + 1 if and only if the flag is set
+(unchanged otherwise), the same level / URL / parent / root; every other URL's record is
+unchanged. -/
+theorem checkin_try_count_plus_one_iff_flag {disk : Bool} {t : Table} (hr : Reachable disk t)
+    (u : Str) (st : Status) (inc : Bool) (rs : Option Result)
+    (hb : bindErr (.checkIn u st inc rs) = none) (r : Rec) (hu : lookup (view t) u = some r) :
+    ∃ r', lookup (view (step disk t (.checkIn u st inc rs)).1) u = some r'
+      ∧ r'.cols.status = st
+      ∧ r'.cols.tryCount = r.cols.tryCount + (if inc then 1 else 0)
+      ∧ (r'.cols.tryCount = r.cols.tryCount + 1 ↔ inc = true)
+      ∧ r'.cols.level = r.cols.level ∧ r'.url = r.url ∧ r'.parent = r.parent ∧ r'.root = r.root
+      ∧ ∀ v, v ≠ u → lookup (view (step disk t (.checkIn u st inc rs)).1) v = lookup (view t) v := by
+  have hi := hr.inv
+  rw [view_step disk hi]
+  unfold sstep
+  rw [hb]
+  dsimp only [sUpdateWhere]
+  have hg : ∀ x : Rec, (if x.url = u then { x with cols := x.cols.checkIn st inc rs } else x).url
+      = x.url := by intro x; split <;> rfl
+  have hview : (abs t).rows = view t := rfl
+  rw [hview]
+  refine ⟨{ r with cols := r.cols.checkIn st inc rs }, ?_, rfl, ?_, ?_, rfl, rfl, rfl, rfl, ?_⟩
+  · rw [lookup_map _ hg, hu]
+    simp [lookup_url hu]
+  · cases inc <;> simp [Cols.checkIn]
+  · cases inc <;> simp [Cols.checkIn]
+  · intro v hv
+    rw [lookup_map _ hg]
+    cases hl : lookup (view t) v with
+    | none => rfl
+    | some x =>
+      have : ¬ x.url = u := by rw [lookup_url hl]; exact hv
+      simp [this]
+
+/-- "release turns every in-progress URL, and nothing else, back to to-do" -/
+theorem release_only_in_progress {disk : Bool} {t : Table} (hr : Reachable disk t) :
+    view (step disk t .release).1 = (view t).map (fun x => { x with cols := x.cols.release })
+      ∧ (∀ c : Cols, c.status = .in_progress → c.release = { c with status := .todo })
+      ∧ (∀ c : Cols, c.status ≠ .in_progress → c.release = c) := by
+  refine ⟨?_, ?_, ?_⟩
+  · rw [view_step disk hr.inv]; rfl
+  · intro c hc; simp [Cols.release, hc]
+  · intro c hc; simp [Cols.release, hc]
+
+/-- "only removal deletes": after any call other than `remove_many` (and other than closing an
+in-memory table) every stored URL is still stored, in the same position. -/
+theorem only_remove_deletes {disk : Bool} {t : Table} (hr : Reachable disk t) (op : Op)
+    (h1 : ∀ us, op ≠ .removeMany us) (h2 : op = .reopen → disk = true) :
+    (view t).map (·.url) <+: (view (step disk t op).1).map (·.url) := by
+  have hi := hr.inv
+  rw [view_step disk hi]
+  have hview : (abs t).rows = view t := rfl
+  unfold sstep
+  cases hb : bindErr op with
+  | some e => exact List.prefix_rfl
+  | none =>
+    dsimp only
+    cases op with
+    | addMany b =>
+      obtain ⟨new, e1, _, _⟩ := sAddMany_shape (abs t) b
+      dsimp only
+      rw [e1, List.map_append]
+      exact List.prefix_append _ _
+    | checkOut st lv =>
+      dsimp only
+      unfold sCheckOut
+      split
+      · exact List.prefix_rfl
+      · dsimp only
+        rw [map_url_map _ (by intro r; split <;> rfl)]
+        exact List.prefix_rfl
+    | checkIn u st inc r =>
+      dsimp only [sUpdateWhere]
+      rw [map_url_map _ (by intro r; split <;> rfl)]
+      exact List.prefix_rfl
+    | updateOne u kw =>
+      dsimp only [sUpdateWhere]
+      rw [map_url_map _ (by intro r; split <;> rfl)]
+      exact List.prefix_rfl
+    | release =>
+      dsimp only
+      rw [map_url_map _ (by intro r; rfl)]
+      exact List.prefix_rfl
+    | removeMany us => exact absurd rfl (h1 us)
+    | addVisits vs => exact List.prefix_rfl
+    | getRevisitId u d => exact List.prefix_rfl
+    | count => exact List.prefix_rfl
+    | getAll => exact List.prefix_rfl
+    | getOne u => dsimp only; split <;> exact List.prefix_rfl
+    | contains u => exact List.prefix_rfl
+    | getHostnames => exact List.prefix_rfl
+    | reopen =>
+      have := h2 rfl
+      subst this
+      exact List.prefix_rfl
+
+/-- `remove_many` deletes exactly the rows of the given URLs -/
+theorem remove_deletes_exactly {disk : Bool} {t : Table} (hr : Reachable disk t) (us : List Str)
+    (hb : bindErr (.removeMany us) = none) :
+    view (step disk t (.removeMany us)).1 = (view t).filter (fun r => decide (r.url ∉ us)) := by
+  rw [view_step disk hr.inv]
+  unfold sstep
+  rw [hb]
+  dsimp only
+  exact sRemoveAll_filter us _
+
+theorem run_append (disk : Bool) (a b : List Op) : ∀ t : Table,
+    run disk t (a ++ b)
+      = ((run disk (run disk t a).1 b).1, (run disk t a).2 ++ (run disk (run disk t a).1 b).2) := by
+  induction a with
+  | nil => intro t; simp [run]
+  | cons op rest ih => intro t; simp only [List.cons_append, run, ih]
+
+/-- "the same holds across closing and reopening an on-disk table": close + reopen is the
+identity on an on-disk table (an in-memory table starts empty again) … -/
+theorem reopen_identity (t : Table) :
+    step true t .reopen = (t, .none) ∧ step false t .reopen = (Table.empty, .none) :=
+  ⟨rfl, rfl⟩
+
+/-- … so a reopen step anywhere in a history of an on-disk table changes no later output and
+not the final table. -/
+theorem reopen_identity_history (t : Table) (ops1 ops2 : List Op) :
+    (run true t (ops1 ++ .reopen :: ops2)).1 = (run true t (ops1 ++ ops2)).1
+      ∧ (run true t (ops1 ++ .reopen :: ops2)).2
+          = (run true t ops1).2 ++ .none :: (run true (run true t ops1).1 ops2).2
+      ∧ (run true t (ops1 ++ ops2)).2
+          = (run true t ops1).2 ++ (run true (run true t ops1).1 ops2).2 := by
+  rw [run_append, run_append]
+  have : ∀ t, run true t (.reopen :: ops2) = ((run true t ops2).1, .none :: (run true t ops2).2) := by
+    intro t
+    simp only [run]
+    rw [(reopen_identity t).1]
+  rw [this]
+  exact ⟨rfl, rfl, rfl⟩
+
+/-- every exception leaves the table unchanged (one call = one transaction) -/
+theorem refused_call_changes_nothing (disk : Bool) (t : Table) (op : Op) (e : Exc)
+    (h : (step disk t op).2 = .exc e) : (step disk t op).1 = t :=
+  exc_unchanged disk t op e h
+
+/-! ### non-vacuity: the theorems talk about histories that do something -/
+
+/-- a plain entry `AddURLInfo(u, None, None)` whose URL parses (hostname `[104]`) -/
+def plain (u : Str) : Entry := ⟨u, none, none, some (some [104])⟩
+
+def exHistory : List Op :=
+  [.addMany [plain [1], plain [2], plain [1]], .checkOut .todo none, .checkIn [1] .done true none,
+   .addMany [plain [1], plain [3]], .checkOut .error none, .checkOut .todo (some 0), .release,
+   .reopen, .removeMany [[2]], .count]
+
+example : (run true Table.empty exHistory).2
+    = [.urls [[1], [2]], .record ⟨[1], some [1], some [1], ⟨.in_progress, 0, 0, none, none, 0, none, none, none⟩⟩,
+       .none, .urls [[3]], .exc .NotFound, .exc .NotFound, .none, .none, .none, .nat 2] := by decide
+
+example : (view (run true Table.empty exHistory).1).map (fun r => (r.url, r.cols.status, r.cols.tryCount))
+    = [([1], .done, 1), ([3], .todo, 0)] := by decide
+
+example : (run false Table.empty exHistory).2.getLast? = some (.nat 0) := by decide
+
+example : Reachable true (run true Table.empty exHistory).1 := ⟨exHistory, rfl⟩
+
+/-- re-adding a done URL with other properties: nothing changes, not reported -/
+example :
+    let s := step true (run true Table.empty exHistory).1
+      (.addMany [⟨[1], some ⟨some [9], some [9], some .todo, some 0, some 7, none, none, none⟩, none,
+        some none⟩])
+    view s.1 = view (run true Table.empty exHistory).1 ∧ s.2 = .urls [] := by decide
+
+/-- a lone surrogate is refused and nothing is stored -/
+example : step true Table.empty (.addMany [plain [1], plain [0xDC80]])
+    = (Table.empty, .exc .UnicodeEncodeError) := by decide
+
+/-- an unparseable new URL rolls the whole batch back -/
+example : step true Table.empty (.addMany [plain [1], ⟨[2], none, none, none⟩])
+    = (Table.empty, .exc .ValueError) := by decide
+
 end Wpull.Table
